@@ -288,13 +288,18 @@ const TOL: f64 = 1e-10;
 struct Tols {
     mean: f64,
     second: f64,
+    /// priors and multinomial feature counts compared bit for bit (f64 on lattice inputs)
+    exact: bool,
 }
-const T64: Tols = Tols { mean: TOL, second: TOL };
+const T64: Tols = Tols { mean: TOL, second: TOL, exact: true };
+/// f64 on real-valued (non-lattice) inputs: sums are no longer exact, everything is judged at 1e-10 (1 + |x|)
+/// (<= 600 rows of magnitude <= 150: a few thousand roundings of 1.1e-16 relative, < 1e-12)
+const T64R: Tols = Tols { mean: TOL, second: TOL, exact: false };
 /// f32 instantiation: lattice sums stay exact (|values| <= 8, quarters, <= 128 rows: all partial sums are
 /// multiples of 1/16 below 2^24/16), so the error is that of a few roundings (6e-8 relative each) per row and
 /// per batch: pooled mean 3 roundings per batch, <= 128 batches: 2.3e-5 worst case; Welford / pooled variance
 /// <= ~3 roundings per row plus 5 per batch: 4e-5 worst case (twice the bound for means, five times for variances)
-const T32: Tols = Tols { mean: 5e-5, second: 2e-4 };
+const T32: Tols = Tols { mean: 5e-5, second: 2e-4, exact: false };
 
 fn cmp_states(ctx: &mut Ctx, what: &str, got: &NbState, want: &NbState, kind: &str, second_clause: &str, var_class: &str, multinomial: bool, t: Tols) {
     let keys_ok = got.keys().collect::<Vec<_>>() == want.keys().collect::<Vec<_>>();
@@ -305,11 +310,11 @@ fn cmp_states(ctx: &mut Ctx, what: &str, got: &NbState, want: &NbState, kind: &s
     for (c, (n, pr, v1, v2)) in got {
         let (wn, wpr, w1, w2) = &want[c];
         // the prior is one division of two exactly representable counts: exact in f64, one f32 rounding otherwise
-        let pr_ok = if t.mean == TOL { pr == wpr } else { near(*pr, *wpr, 1e-7) };
+        let pr_ok = if t.exact || t.mean == TOL { pr == wpr } else { near(*pr, *wpr, 1e-7) };
         ctx.require(n == wn && pr_ok, "counts_priors", kind, || format!("{}: class {} count {} prior {}, textbook {} / {}", what, c, n, pr, wn, wpr));
         if multinomial {
             // multinomial: first vector = additive counts (exact), second = smoothed log-frequencies
-            ctx.require(v1 == w1, "feature_counts", kind, || format!("{}: class {} feature counts {:?}, textbook {:?}", what, c, v1, w1));
+            ctx.require(if t.exact { v1 == w1 } else { near_v(v1, w1, t.mean) }, "feature_counts", kind, || format!("{}: class {} feature counts {:?}, textbook {:?}", what, c, v1, w1));
             ctx.require(near_v(v2, w2, t.second), second_clause, kind, || format!("{}: class {} log-frequencies {:?}, textbook {:?}", what, c, v2, w2));
         } else {
             ctx.require(near_v(v1, w1, t.mean), "mean_replay", kind, || format!("{}: class {} mean {:?}, textbook {:?}", what, c, v1, w1));
@@ -473,11 +478,11 @@ fn op_gnb_pred(em: &mut Em, h: &Hist, p: usize, vs: f64, qs: &Rows) {
 /// `DatasetView`s.  Oracle only (the model side is the f64/usize/owned run of `gnb`): every prefix against
 /// the textbook estimate and the weighted-epsilon law, predictions against the arg-max of the model's own
 /// statistics.
-fn op_gnb_var(em: &mut Em, h: &Hist, p: usize, vs: f64, qs: &Rows, f32_: bool, lab: usize, layout: usize) {
+fn op_gnb_var(em: &mut Em, h: &Hist, p: usize, vs: f64, qs: &Rows, f32_: bool, lab: usize, layout: usize, real: bool) {
     let distinct = distinct_labels(h);
     let lab = if lab == 2 && distinct.len() > 2 { 1 } else { lab };
     let labname = ["usize", "string", "bool"][lab];
-    let kind = format!("gnb_var:{}:{}:{}", if f32_ { "f32" } else { "f64" }, labname, LAYOUTS[layout]);
+    let kind = format!("gnb_var:{}:{}:{}{}", if f32_ { "f32" } else { "f64" }, labname, LAYOUTS[layout], if real { ":real" } else { "" });
     let op = format!("#gnb_var f={} lab={} layout={} vs={} p={} x={} y={} q={}", if f32_ { 32 } else { 64 }, labname, LAYOUTS[layout], hex64(vs), p, hist_x(h), hist_y(h), list2(qs.iter().map(|x| x.iter()), |x| hex64(*x)));
     em.count(&format!("variant:{}", kind));
     em.case_valid(op, &kind, |ctx| {
@@ -493,6 +498,7 @@ fn op_gnb_var(em: &mut Em, h: &Hist, p: usize, vs: f64, qs: &Rows, f32_: bool, l
         // f32: var_smoothing itself is rounded to f32 (1e-9 is not representable); the oracle uses the rounded value
         let vs_eff = if f32_ { vs as f32 as f64 } else { vs };
         gnb_oracle(ctx, h, p, vs_eff, &states, &kind, if f32_ { T32 } else { T64 });
+        let _ = real;
         let last = states.last().unwrap().clone();
         if let Some(pred) = pred {
             let (rows, labels) = concat(h);
@@ -579,11 +585,11 @@ fn op_mnb_pred(em: &mut Em, h: &Hist, p: usize, alpha: f64, qs: &Rows) {
         format!("ok pred={} margin={}", list(inc_pred.iter(), |x| x.to_string()), tf(m))
     });
 }
-fn op_mnb_var(em: &mut Em, h: &Hist, p: usize, alpha: f64, qs: &Rows, f32_: bool, lab: usize, layout: usize) {
+fn op_mnb_var(em: &mut Em, h: &Hist, p: usize, alpha: f64, qs: &Rows, f32_: bool, lab: usize, layout: usize, real: bool) {
     let distinct = distinct_labels(h);
     let lab = if lab == 2 && distinct.len() > 2 { 1 } else { lab };
     let labname = ["usize", "string", "bool"][lab];
-    let kind = format!("mnb_var:{}:{}:{}", if f32_ { "f32" } else { "f64" }, labname, LAYOUTS[layout]);
+    let kind = format!("mnb_var:{}:{}:{}{}", if f32_ { "f32" } else { "f64" }, labname, LAYOUTS[layout], if real { ":real" } else { "" });
     let op = format!("#mnb_var f={} lab={} layout={} alpha={} p={} x={} y={} q={}", if f32_ { 32 } else { 64 }, labname, LAYOUTS[layout], hex64(alpha), p, hist_x(h), hist_y(h), list2(qs.iter().map(|x| x.iter()), |x| hex64(*x)));
     em.count(&format!("variant:{}", kind));
     em.case_valid(op, &kind, |ctx| {
@@ -599,7 +605,7 @@ fn op_mnb_var(em: &mut Em, h: &Hist, p: usize, alpha: f64, qs: &Rows, f32_: bool
             (true, _) => mnb_variant::<f32, bool>(h, p, alpha, layout, &distinct, qs, &defined),
         };
         // f32 log-frequencies: two f32 logarithms and a subtraction of values <= ~10: 1e-5 is > 10 roundings
-        mnb_oracle(ctx, h, p, alpha, &states, &kind, if f32_ { Tols { mean: 5e-5, second: 1e-5 } } else { T64 });
+        mnb_oracle(ctx, h, p, alpha, &states, &kind, if f32_ { Tols { mean: 5e-5, second: 1e-5, exact: false } } else if real { T64R } else { T64 });
         let last = states.last().unwrap().clone();
         if let Some(pred) = pred {
             let ts = |x: &[f64]| mnb_jll(&text, x);
@@ -714,6 +720,11 @@ fn gen_queries(rng: &mut Rng, rows: &Rows, p: usize, hi: bool) -> Rows {
         .collect()
 }
 
+fn gen_queries_real(rng: &mut Rng, rows: &Rows, p: usize) -> Rows {
+    let nq = 1 + rng.below(4);
+    (0..nq).map(|_| if rng.coin() { rng.pick(rows).clone() } else { (0..p).map(|j| rng.pick(rows)[j]).collect() }).collect()
+}
+
 fn nb_cases(em: &mut Em, rng: &mut Rng, rows_g: &(Rows, Vec<usize>), rows_m: &(Rows, Vec<usize>), p: usize, mask: u64, with_var: bool) {
     let vs = gen_vs(rng);
     let alpha = *rng.pick(&[0.0, 0.5, 1.0, 1.0, 2.0]);
@@ -756,9 +767,9 @@ fn nb_cases(em: &mut Em, rng: &mut Rng, rows_g: &(Rows, Vec<usize>), rows_m: &(R
             }
         };
         let (f, l, y) = pick(rng);
-        op_gnb_var(em, &hg, p, vs, &qg, f, l, y);
+        op_gnb_var(em, &hg, p, vs, &qg, f, l, y, false);
         let (f, l, y) = pick(rng);
-        op_mnb_var(em, &hm, p, alpha, &qm, f, l, y);
+        op_mnb_var(em, &hm, p, alpha, &qm, f, l, y, false);
     }
 }
 
@@ -783,7 +794,7 @@ fn balanced_case(em: &mut Em, rng: &mut Rng, d: &(Rows, Vec<usize>), p: usize, h
         op_gnb_pred(em, &h, p, vs, &q);
     }
     if rng.chance(1, 3) {
-        op_gnb_var(em, &h, p, vs, &q, rng.coin(), rng.below(3), 1 + rng.below(2));
+        op_gnb_var(em, &h, p, vs, &q, rng.coin(), rng.below(3), 1 + rng.below(2), false);
     }
 }
 
@@ -814,6 +825,53 @@ pub fn run(em: &mut Em, rng: &mut Rng) {
         let dm = mnb_data(rng, n, p);
         let mask = random_mask(rng, n);
         nb_cases(em, rng, &dg, &dm, p, mask, true);
+    }
+    // real-valued (non-lattice) data, f64 only, oracle only: sums inside ndarray are no longer exact, so an
+    // f32 round trip or a reordered / shortened accumulation that lattice data cannot see shows up here
+    for _ in 0..extra {
+        let n = 2 + rng.below(if thorough { 120 } else { 40 });
+        let p = 1 + rng.below(4);
+        let scale = *rng.pick(&[1.0, 100.0, 1e-3]);
+        let offset = *rng.pick(&[0.0, 0.0, 1.0, 50.0]) * scale;
+        let rows_g: Rows = (0..n).map(|_| (0..p).map(|_| offset + (rng.unit() - 0.5) * scale).collect()).collect();
+        let rows_m: Rows = (0..n).map(|_| (0..p).map(|_| rng.unit() * scale).collect()).collect();
+        let labels = gen_labels(rng, n);
+        let mask = random_mask(rng, n);
+        let (vs, alpha) = (gen_vs(rng), *rng.pick(&[0.0, 0.5, 1.0, 2.0]));
+        let hg = mk_hist(&rows_g, &labels, mask);
+        let hm = mk_hist(&rows_m, &labels, mask);
+        let qg = gen_queries_real(rng, &rows_g, p);
+        let qm = gen_queries_real(rng, &rows_m, p);
+        em.count("nb:real_valued");
+        op_gnb_var(em, &hg, p, vs, &qg, false, rng.below(3), rng.below(3), true);
+        op_mnb_var(em, &hm, p, alpha, &qm, false, rng.below(3), rng.below(3), true);
+    }
+    // a few long histories: class counts in the hundreds (products of counts beyond 16 bits)
+    for _ in 0..(if thorough { 40 } else { 8 }) {
+        let n = 200 + rng.below(500);
+        let p = 1 + rng.below(3);
+        let dg = gnb_data(rng, n, p);
+        let dm = mnb_data(rng, n, p);
+        // two to five batches
+        let mut mask = 0u64;
+        let _ = &mut mask;
+        let cuts: Vec<usize> = (0..1 + rng.below(4)).map(|_| 1 + rng.below(n - 1)).collect();
+        let cut_at = |rows: &Rows, labels: &[usize]| -> Hist {
+            let mut cs = cuts.clone();
+            cs.sort();
+            cs.dedup();
+            let mut out: Hist = vec![];
+            let mut start = 0;
+            for c in cs.iter().chain(std::iter::once(&rows.len())) {
+                out.push((rows[start..*c].to_vec(), labels[start..*c].to_vec()));
+                start = *c;
+            }
+            out
+        };
+        let (vs, alpha) = (gen_vs(rng), *rng.pick(&[0.5, 1.0]));
+        em.count("nb:long_history");
+        op_gnb(em, &cut_at(&dg.0, &dg.1), p, vs);
+        op_mnb(em, &cut_at(&dm.0, &dm.1), p, alpha);
     }
     // balanced histories: var_smoothing > 0 and incremental == textbook must hold exactly
     let hmax = if thorough { 7 } else { 5 };
